@@ -153,7 +153,7 @@ Section Top.
      anything may follow the block in the source when the decode stops inside the content. *)
   Theorem dec_generic_partial (fastloop : bool) (B hist D : list Z) oend k m0 :
     strict_valid hist B = Some D -> bytes B -> src_at srcm 0 B ->
-    out_at (get m0) 0 (rev hist) -> Z.of_nat (length hist) <= - lowPrefix ->
+    out_at (vget lowPrefix dictm dictSize m0) 0 (rev hist) -> Z.of_nat (length hist) <= - lowPrefix + hroom dict dictSize ->
     0 <= oend -> 0 <= k -> (k = 0 \/ oend <= Z.of_nat (length D)) ->
     let '(r, m, _) := dec_generic fastloop true dict srcm (Z.of_nat (length B) + k) oend lowPrefix rlow dictm dictSize m0 in
     r = Z.min oend (Z.of_nat (length D)) /\ forall i, 0 <= i < r -> get m i = nth (Z.to_nat i) D 0.
@@ -178,7 +178,7 @@ Section Top.
       cbn [ip op dm] in HR.
       destruct HR as (s' & Hrun & Hout); try lia.
       + exact Hs.
-      + intros j Hj. rewrite vget_hi by (rewrite rev_length in Hj; lia). apply Hh. exact Hj.
+      + exact Hh.
       + rewrite rev_length. lia.
       + unfold FASTLOOP_SAFE_DISTANCE. lia.
       + rewrite Hrun. rewrite <- HlenD. split; [lia|].
